@@ -1051,3 +1051,18 @@ func (t *Term) String() string {
 }
 
 var _ = bits.Len
+
+// Deep prints a term as a nested expression down to the given depth (debugging aid).
+func Deep(t *Term, depth int) string {
+	if t.IsConst() || t.Op == OVar || depth == 0 {
+		return t.String()
+	}
+	s := fmt.Sprintf("(op%d", t.Op)
+	if t.A != 0 || t.B != 0 {
+		s += fmt.Sprintf("[%d,%d]", t.A, t.B)
+	}
+	for _, a := range t.Args {
+		s += " " + Deep(a, depth-1)
+	}
+	return s + ")"
+}
